@@ -34,3 +34,11 @@ Example teardown_waits_for_running_task :
   let '(s, tr) := run_gates (Some true) init [] (firstn 7 gs3) in
   ph s = Closing /\ handles s = [0] /\ ~ In (CancelSeen 0) tr.
 Proof. vm_compute. repeat split. intuition discriminate. Qed.
+
+(* the premises of `cancelled_task_is_over` are met straight after a spawn, before the task has run at all *)
+Example freshly_spawned_task_can_be_cancelled :
+  let s := fst (fire None init (GSpawn (Beh 3 EReturn None))) in
+  ph s = Open /\ tstate_of s 0 = TRun 3 /\ oncancel_of s 0 = None /\
+  snd (fire None s (GCancel 0)) = [CancelSeen 0; Ended 0] /\
+  snd (fire None (fst (fire None s (GCancel 0))) (GTask 0)) = [].
+Proof. vm_compute. repeat split; reflexivity. Qed.
